@@ -6,6 +6,7 @@ package main
 
 import (
 	"fmt"
+	"go/token"
 	"math/big"
 	"regexp"
 	"sort"
@@ -188,8 +189,17 @@ func layEqual(got, want *Lay, extraFeasible func(map[string]bool) bool) (bool, s
 var atomTerms sync.Map
 
 func registerAtom(s string, t *T) {
-	if t != nil {
-		atomTerms.LoadOrStore(s, t)
+	if t == nil {
+		return
+	}
+	atomTerms.LoadOrStore(s, t)
+	// the comparison's canonical spelling (see canonAtom) stands for the same test, possibly negated
+	if k, flip := canonAtom(s); k != s {
+		ct := t
+		if flip {
+			ct = &T{K: "un", Op: token.NOT, Args: []*T{t}, Typ: t.Typ}
+		}
+		atomTerms.LoadOrStore(k, ct)
 	}
 }
 
